@@ -144,7 +144,7 @@ def props_for(d, total, **over):
 
 def k_frame(ctx, d):
     uh, uf = _imp()
-    case = {"k": "frame", "d": d if len(d["tfdz"]) <= 80 else dict(d, tfdz=d["tfdz"][:16] + "..", tfdz_len=len(d["tfdz"]) // 2)}
+    case = {"k": "frame", "d": d}          # complete, so that a witness can be replayed as it is
     cell = f"{d['ftype']}/iz={'n' if d['iz'] is None else len(d['iz']) // 2}/ocf={int(d['ocf'] is not None)}/fecf={'n' if d['fecf'] is None else len(d['fecf']) // 2}"
     ctx.case(f"frame/{cell}", json.dumps(d, sort_keys=True), sample=case if len(d["tfdz"]) <= 80 else None)
     ctx.table("rule_x_type", f"{d['rule']}/{d['ftype']}")
